@@ -65,7 +65,22 @@ pub fn g2_small_primes() -> Vec<u64> {
     vec![13, 23, 2713, 11953, 262069]
 }
 
-fn finish<F: RF>(c: &Curve<F>, mut v: Vec<(String, Pt<F>)>) -> Vec<NamedPt<F>> {
+fn finish<F: RF>(c: &Curve<F>, v0: Vec<(String, Pt<F>)>) -> Vec<NamedPt<F>> {
+    // negation partners sit next to each other (same x, opposite y: what a memo keyed on x alone, or a sign rule, confuses):
+    // the generator, the first seeded multiple and the full-order point are each followed by their negative
+    let mut v: Vec<(String, Pt<F>)> = vec![];
+    let mut seeded_done = false;
+    for (name, p) in v0 {
+        let partner = name == "g1" || name == "g2" || (name.starts_with('[') && !seeded_done) || name.starts_with("R0 (");
+        if name.starts_with('[') {
+            seeded_done = true;
+        }
+        let n = (if name == "g1" || name == "g2" { format!("-{}", name) } else { format!("-({})", name) }, c.neg(&p));
+        v.push((name, p));
+        if partner {
+            v.push(n);
+        }
+    }
     // dedup by value
     let mut seen = std::collections::HashSet::new();
     v.retain(|(_, p)| seen.insert(p.clone()));
